@@ -75,7 +75,7 @@ fn watchdog_budget() -> Duration {
         std::env::var("VERIF_WATCHDOG_S")
             .ok()
             .and_then(|s| s.parse().ok())
-            .unwrap_or(20),
+            .unwrap_or(10),
     )
 }
 
@@ -138,6 +138,7 @@ pub struct Batch {
     pub hangs: Vec<u64>,
     pub worker_failures: Vec<String>,
     pub wall_s: f64,
+    pub stopped_early: bool,
 }
 
 fn self_exe() -> std::path::PathBuf {
@@ -249,6 +250,15 @@ pub fn run_batch(
                     "H" => {
                         if let Ok(idx) = rest.trim().parse::<u64>() {
                             b.hangs.push(idx);
+                        }
+                        // a code base that hangs on many plans would cost one watchdog
+                        // period per plan: a few witnesses are enough
+                        if b.hangs.len() >= 3 && !killed {
+                            for c in children.iter_mut() {
+                                let _ = c.kill();
+                            }
+                            killed = true;
+                            b.stopped_early = true;
                         }
                     }
                     "S" => {
@@ -654,7 +664,8 @@ pub fn minimise(
 ) -> (Value, usize) {
     let mut best = plan.clone();
     let mut execs = 0;
-    let budget = if key == HANG_KEY { 4 } else { 20 };
+    let budget = if key == HANG_KEY { 3 } else { 20 };
+    let max_execs = if key == HANG_KEY { max_execs.min(60) } else { max_execs };
     let mut improved = true;
     while improved && execs < max_execs {
         improved = false;
